@@ -479,7 +479,224 @@ def check_C13(tier):
                          models=[impl_model_stage(["norecv"])])
 
 
-CHECKS = {"C01": check_C01, "C02": check_C02, "C03": check_C03, "C04": check_C04, "C05": check_C05, "C06": check_C06,
+def check_C14(tier):
+    caps = caps_for(tier)[:2]
+    scns = sc.futures_scn("C14", "bcast", caps=caps, spins=(0, 0)) + sc.futures_scn("C14", "mpmc", caps=caps[:1])
+    if tier == "thorough":
+        scns += sc.futures_scn("C14d", "bcast", caps=caps, spins=(2, 2)) + sc.futures_scn("C14x", "mpmc", caps=caps)
+    scns += sc.no_receivers("C14n", "bcast", caps=caps, fut=True) + sc.remove_stream("C14r", "bcast", caps=caps, fut=True)
+    for s_ in scns:
+        s_["livelock"] = 4000
+    return generic_check("C14", tier, ["C14"], scns, plans_for(tier), RULE_CONC +
+                         "; futures handles run on a deterministic executor: a task that got NotReady waits for its "
+                         "notification (Notify callback), so a task parked forever is a detected deadlock and is accepted "
+                         "only if the model gives it nothing to do")
+
+
+def check_C15(tier):
+    caps = caps_for(tier)[:2]
+    scns = (sc.traffic("C15", "bcast", fut=True, caps=caps) + sc.traffic("C15", "mpmc", fut=True, caps=caps[:1]) +
+            sc.futures_scn("C15f", "bcast", caps=caps) + sc.disconnect("C15d", "bcast", caps=caps, fut=True) +
+            sc.disconnect("C15d", "mpmc", caps=caps[:1], fut=True))
+    for s_ in scns:
+        s_["livelock"] = 4000
+    depth = 4 if tier == "quick" else 5
+    gens = []
+    for fam in ("bcast", "mpmc"):
+        gens.append(dict(family=fam, fut=True, cap=1, depth=depth,
+                         ops=["send", "start_send", "poll_complete", "recv", "poll", "view", "brecv", "clone", "drop",
+                              "into_single", "into_multi", "transform"] + (["add_stream"] if fam == "bcast" else [])))
+        gens.append(dict(family=fam, fut=True, cap=2, depth=40, simulate=(100 if tier == "quick" else 1500, 40),
+                         ops=alphabet(fam, True), max_senders=3, max_streams=3, max_hps=2))
+    return generic_check("C15", tier, ["C15", "C01C02", "C03", "C05", "C06", "C07", "C09", "C13", "C14", "C18"], scns,
+                         plans_for(tier), RULE_CONC +
+                         "; plus sequential histories mixing start_send/poll_complete/poll with the direct methods "
+                         "generated from MQAbsGen (including polls on a fresh empty queue); a poll/start_send that does "
+                         "not return is a stuck event", gens=gens)
+
+
+def check_C16(tier):
+    scns = (sc.churn("C16", "bcast", caps=(2,), cycles=7 if tier == "quick" else 12) +
+            sc.churn("C16", "mpmc", caps=(2,), cycles=7 if tier == "quick" else 12) +
+            sc.churn("C16", "bcast", caps=(1,), cycles=7, fut=True))
+    return generic_check("C16", tier, ["C16"], scns, plans_for(tier, dfs_cap_quick=1500, rnd_quick=400), RULE_CONC +
+                         "; released blocks are poisoned and quarantined for the rest of the run, every shim operation "
+                         "on a quarantined address is a uaf event, releasing a block twice a doublefree event; a crash "
+                         "of the run process (poisoned pointer followed) is a violation")
+
+
+def churn_stage(wd, v, cov, tier):
+    """handle churn without the scheduler, memory sampled at checkpoints, judged by MQAbsTrace (Ckpt / End)"""
+    cycles = 10000 if tier == "quick" else 100000
+    jobs = []
+    for fam in ("bcast", "mpmc"):
+        for fut in (False, True):
+            for extra in ([], ["--early-drop"], ["--traffic"]):
+                for cap in ((4,) if tier == "quick" else (1, 4, 9)):
+                    tag = "churn_%s%s_c%d%s" % (fam, "F" if fut else "", cap, "".join(extra).replace("--", "_"))
+                    out = os.path.join(wd, tag + ".api.ndjson")
+                    jobs.append((["churn", "--family", fam, "--cap", str(cap), "--cycles", str(cycles), "--out", out] +
+                                 (["--fut"] if fut else []) + extra, out))
+    vlib.build_harness()
+    with cf.ThreadPoolExecutor(max_workers=8) as ex:
+        stats = list(ex.map(lambda j: vlib.run_harness(j[0], 1800), jobs))
+    for st in stats:
+        if "crash" in st:
+            v.crash(st, wd)
+    # one trace file for TLC
+    allf = os.path.join(wd, "churn_all.api.ndjson")
+    with open(allf, "w") as f:
+        for j in jobs:
+            if os.path.exists(j[1]):
+                f.write(open(j[1]).read())
+    val = vlib.validate_many([allf], wd)
+    log("  [churn] %d churn histories of %d cycles: %d accepted, %d rejected" %
+        (len(jobs), cycles, val["accepted"], len(val["rejected"])))
+    for rej in val["rejected"]:
+        v.judge_rejected(rej, wd, None, None, source="churn")
+    cov["states"] += val["states"]
+    cov["transitions"] += val["generated"]
+    cov["traces_validated_against_impl"] += val["accepted"]
+    cov["evaluations"] += len(jobs)
+    cov["distinct_nontrivial"] += len(jobs)
+    cov["churn_cycles_per_history"] = cycles
+    cov["samples"] = cov["samples"] or vlib.sample_runs([allf], 2)
+
+
+def check_C17(tier):
+    depth = 4 if tier == "quick" else 5
+    gens = []
+    for (fam, fut) in FAMILIES:
+        gens.append(dict(family=fam, fut=fut, cap=2, depth=depth,
+                         ops=["send", "recv", "add_stream", "clone", "drop", "unsub", "into_single", "into_multi"] +
+                         (["transform", "start_send", "poll"] if fut else [])))
+    for cap in (0, 1, 3, 5, 9):
+        gens.append(dict(family="bcast", fut=False, cap=cap, depth=6, simulate=(40 if tier == "quick" else 400, 6),
+                         ops=["send", "recv", "add_stream", "clone", "drop"]))
+    scns = sc.churn("C17", "bcast", caps=(2,), cycles=8) + sc.churn("C17", "mpmc", caps=(2,), cycles=8)
+    return generic_check("C17", tier, ["C17"], scns, plans_for(tier, dfs_cap_quick=300, rnd_quick=100), RULE_CONC +
+                         "; teardown in every order (sequential histories from MQAbsGen, all four families, capacities "
+                         "0..9): after the last handle is gone no block allocated through alloc.rs is alive; churn "
+                         "histories of 10^4 (quick) / 10^5 (thorough) cycles with live blocks and heap bytes sampled at "
+                         "checkpoints 100, 1000, ...: no growth beyond a plateau, heap back to its level after teardown",
+                         gens=gens, models=[churn_stage])
+
+
+def check_C18(tier):
+    caps = caps_for(tier)[:2]
+    shapes = [(1, [1], 3, "recv", False, 3), (2, [2], 2, "recv", False, 2), (2, [1, 1], 2, "recv", False, 2),
+              (1, [2], 3, "recv", False, 2)]
+    scns = (sc.traffic("C18", "bcast", caps=caps, shapes=shapes) + sc.traffic("C18", "mpmc", caps=caps, shapes=shapes) +
+            sc.uni_traffic("C18", "bcast", caps=caps) + sc.population("C18p", "bcast", caps=caps) +
+            sc.churn("C18k", "bcast", caps=(2,), cycles=7) + sc.add_stream_scn("C18a", caps=caps))
+    n = 400 if tier == "quick" else 6000
+    return generic_check("C18", tier, ["C18"], scns, [("freeze", n, 0), ("random", n // 4, 0)],
+                         "freeze schedules on the real crate: at random moments every thread but one is frozen wherever "
+                         "it is (in the middle of any operation) and a thread that is about to start try_send / try_recv / "
+                         "try_recv_view runs that call alone; MQAbsTrace requires the call to return within 64 of its own "
+                         "shared-memory operations; busy-wait queues only, as the statement restricts; "
+                         "distinct_nontrivial = distinct (scenario, schedule) pairs with at least one preemption")
+
+
+def check_C19(tier):
+    """The rule of C19 as a TLA+ table (Handles.tla) enumerated by TLC; every row becomes a compile probe."""
+    import subprocess
+    import shutil
+    t0 = time.time()
+    prop = "C19"
+    wd = vlib.workdir(prop)
+    v = vlib.Verdict(prop, ["C19"])
+    r = vlib.tlc("Handles.tla", os.path.join(vlib.SPEC, "Handles.cfg"), os.path.join(wd, "handles.tlc"), workers=1,
+                 timeout=300)
+    rows = vlib.parse_printed(r["out"], "ROW")
+    if not rows:
+        raise vlib.ToolError("Handles.tla produced no rows: %s" % r["out"][-800:])
+    PAY = {"SendSync": "u64", "SendOnly": "std::cell::Cell<u64>", "Neither": "std::rc::Rc<u64>"}
+    pdir = os.path.join(wd, "probe")
+    os.makedirs(os.path.join(pdir, "src", "bin"))
+    os.makedirs(os.path.join(pdir, ".cargo"))
+    repo = os.environ.get("VERIF_REPO_DIR", "/repo")
+    # the seeded-change self tests point the harness copy at a scratch repository: follow it
+    ct = open(os.path.join(vlib.HARNESS, "Cargo.toml")).read()
+    import re as _re
+    mm = _re.search(r'multiqueue2 = \{ path = "([^"]+)"', ct)
+    if mm:
+        repo = mm.group(1)
+    with open(os.path.join(pdir, "Cargo.toml"), "w") as f:
+        f.write('[package]\nname = "probe"\nversion = "0.1.0"\nedition = "2018"\n\n[workspace]\n\n[dependencies]\n'
+                'multiqueue2 = { path = "%s" }\n' % repo)
+    with open(os.path.join(pdir, ".cargo", "config.toml"), "w") as f:
+        f.write('[net]\noffline = true\n')
+    shutil.copy(os.path.join(vlib.HARNESS, "Cargo.lock"), os.path.join(pdir, "Cargo.lock"))
+    with open(os.path.join(pdir, "src", "lib.rs"), "w") as f:
+        f.write("")
+    probes = {}
+    for i, row in enumerate(rows):
+        T = PAY[row["payload"]]
+        if row["closure"] == "NoClosure":
+            ty = "multiqueue2::%s<%s>" % (row["type"], T)
+        else:
+            F = "fn(&%s) -> u64" % T if row["closure"] == "SendFn" else "Box<dyn FnMut(&%s) -> u64>" % T
+            ty = "multiqueue2::%s<u64, %s, %s>" % (row["type"], F, T)
+        for trait in ("send", "sync"):
+            name = "p%03d_%s" % (i, trait)
+            bound = "Send" if trait == "send" else "Sync"
+            with open(os.path.join(pdir, "src", "bin", name + ".rs"), "w") as f:
+                f.write("#![allow(unused)]\nfn need<T: %s>() {}\nfn main() { need::<%s>(); }\n" % (bound, ty))
+            probes[name] = (row, trait, ty)
+    env = dict(os.environ, CARGO_NET_OFFLINE="true", CARGO_TARGET_DIR=os.path.join(wd, "probe_target"))
+    p = subprocess.run(["cargo", "check", "--offline", "--bins", "--keep-going", "--message-format=json"], cwd=pdir,
+                       env=env, stdout=subprocess.PIPE, stderr=subprocess.PIPE, text=True)
+    errors = {}
+    built = set()
+    for line in p.stdout.splitlines():
+        try:
+            m = json.loads(line)
+        except Exception:
+            continue
+        if m.get("reason") == "compiler-message" and m["message"].get("level") == "error":
+            tgt = m["target"]["name"]
+            code = (m["message"].get("code") or {}).get("code")
+            errors.setdefault(tgt, []).append(code)
+        if m.get("reason") == "compiler-artifact":
+            built.add(m["target"]["name"])
+    if "multiqueue2" not in built:
+        raise vlib.ToolError("the crate itself did not compile for the probes:\n" + p.stderr[-1500:])
+    mism = []
+    for name, (row, trait, ty) in sorted(probes.items()):
+        expect_ok = row[trait]
+        errs = errors.get(name, [])
+        ok = (not errs) and name in built
+        if expect_ok and not ok:
+            mism.append({"probe": name, "type": ty, "trait": trait, "expected": "implements", "got": errs})
+        elif not expect_ok and (ok or not all(e == "E0277" for e in errs)):
+            mism.append({"probe": name, "type": ty, "trait": trait, "expected": "E0277", "got": errs or "compiles"})
+    log("  [table] %d rows from Handles.tla, %d compile probes, %d disagree with the table" %
+        (len(rows), len(probes), len(mism)))
+    shutil.rmtree(os.path.join(wd, "probe_target"), ignore_errors=True)
+    if mism:
+        os.makedirs(vlib.REPLAYS, exist_ok=True)
+        path = os.path.join(vlib.REPLAYS, "C19-table.json")
+        with open(path, "w") as f:
+            json.dump({"property": "C19", "mismatches": mism, "replay": "bin/check C19"}, f, indent=1)
+        v.violations.append(path)
+    rc = v.finish()
+    cov = {"explanation": "The rule of C19 is written as the operators ExpectSend/ExpectSync of spec/Handles.tla; TLC "
+                          "enumerates all %d rows (12 handle types x 3 payload classes x closure class for the futures "
+                          "single-consumer receivers); each row is compiled as two probes (T: Send, T: Sync) against the "
+                          "current /repo; a positive row must compile, a negative row must fail with E0277 only." % len(rows),
+           "evaluations": len(probes), "distinct_nontrivial": len(probes),
+           "rule": "one probe per (row, auto trait); all distinct; non-trivial = every probe instantiates a public handle type",
+           "samples": [{"row": probes[n][0], "trait": probes[n][1], "type": probes[n][2]} for n in sorted(probes)[:4]],
+           "states": r["distinct"], "mismatches": len(mism), "exhaustive": True}
+    vlib.write_evidence(prop, tier, "other", cov, time.time() - t0, len(v.violations),
+                        ["rustc's auto-trait resolution is the ground truth; payload classes are represented by u64, "
+                         "Cell<u64>, Rc<u64>; closure classes by a fn pointer and Box<dyn FnMut> (not Send)"])
+    return rc
+
+
+CHECKS = {"C19": check_C19, "C14": check_C14, "C15": check_C15, "C16": check_C16, "C17": check_C17, "C18": check_C18,
+          "C01": check_C01, "C02": check_C02, "C03": check_C03, "C04": check_C04, "C05": check_C05, "C06": check_C06,
           "C07": check_C07, "C08": check_C08, "C09": check_C09, "C10": check_C10, "C11": check_C11, "C12": check_C12,
           "C13": check_C13}
 
